@@ -101,6 +101,9 @@ pub struct Config {
     /// append one line `n_enabled pos cur_enabled tid` per decision to this file (for executions
     /// that end with the death of the process)
     pub step_log: Option<std::path::PathBuf>,
+    /// channels whose receiver is an uncontrolled, always-receiving thread (the reducers of
+    /// `train_bpe` / `Dictionary::create`): a send on them never has to wait for a controlled thread
+    pub free_receivers: Vec<Obj>,
 }
 
 struct St {
@@ -121,6 +124,7 @@ struct St {
     activity: u64,
     /// with a controlled body every legitimate report comes from a registered thread
     ignore_untracked: bool,
+    free_receivers: Vec<Obj>,
 }
 
 pub struct Ctl {
@@ -147,7 +151,7 @@ impl St {
                     Some((o, v)) if o == obj => self.mirror.atomics.get(&obj).map(|cur| *cur != v).unwrap_or(true),
                     _ => true,
                 },
-                Event::Send { obj } => self.mirror.chans.get(&obj).map(|c| c.len < c.cap || c.rx_dropped).unwrap_or(true),
+                Event::Send { obj } => self.free_receivers.contains(&obj) || self.mirror.chans.get(&obj).map(|c| c.len < c.cap || c.rx_dropped).unwrap_or(true),
                 Event::Recv { obj } => self.mirror.chans.get(&obj).map(|c| c.len > 0 || c.senders == 0).unwrap_or(true),
                 _ => true,
             },
@@ -490,6 +494,7 @@ pub fn run<R: Send + 'static>(cfg: Config, body: impl FnOnce(Arc<Ctl>) -> R + Se
             final_key: 0,
             activity: 0,
             ignore_untracked: cfg.consumer_controlled,
+            free_receivers: cfg.free_receivers,
         }),
         cv: Condvar::new(),
         state_fn: cfg.state_fn,
